@@ -404,4 +404,45 @@ example : ((Routes.find (routesOf ["GET", "PUT", "OPTIONS"]
     [⟨"/a", 1, [⟨"GET", none⟩, ⟨"PUT", some ""⟩], some ""⟩]) "/a").map fun b => (b.mm.lookup "GET", b.mm.lookup "PUT", b.suffix)) =
     some (.resource 1 "GET", .notAllowed ["GET", "OPTIONS"], none) := by decide
 
+/-! ### the framework's own answers are exact whatever earlier stages left on the response -/
+
+/-- the status of falcon's own answers: 200 for the automatic OPTIONS responder, 405, 400, 404 - for EVERY state `pre` of the
+    response (a status preset by `process_request` / `process_resource` middleware or by the `response_type` initializer) -/
+theorem answer_status_exact (pre : Resp) (r : Responder) :
+    (answer pre r).status = match r with
+      | .options _ => 200 | .notAllowed _ => 405 | .badRequest => 400 | .notFound => 404 | _ => pre.status := by
+  cases r <;> rfl
+
+/-- falcon's own answers do not depend on the status the response carried before -/
+theorem answer_status_independent (pre pre' : Resp) (r : Responder) (h : r.isDefault = true) :
+    (answer pre r).status = (answer pre' r).status := by
+  cases r <;> first | rfl | (simp [Responder.isDefault] at h)
+
+/-- the Allow header of the automatic OPTIONS answer and of the 405 answer is the responder's own list, whatever `Allow` value
+    an earlier stage had put on the response; 400 and 404 leave the header alone -/
+theorem answer_allow_exact (pre : Resp) (r : Responder) :
+    (answer pre r).allow = match r with
+      | .options al => some (", ".intercalate al) | .notAllowed al => some (", ".intercalate al) | _ => pre.allow := by
+  cases r <;> rfl
+
+/-- on a matched route whose resource has no `on_options`: OPTIONS is answered 200 with `Allow` = exactly the implemented HTTP
+    methods (sorted, without WEBSOCKET), for every state of the response before -/
+theorem options_answer_exact (mm : MethodMap) (pre : Resp) (h : mm.impl.contains "OPTIONS" = false) :
+    answer pre (mm.lookup "OPTIONS") = { status := 200, allow := some (", ".intercalate mm.allowed) } := by
+  unfold MethodMap.lookup
+  rw [if_neg (by rw [h]; decide), if_pos (by decide)]
+  rfl
+
+/-- ... and a method of COMBINED_METHODS the resource does not implement is answered 405 with `Allow` = those methods plus OPTIONS -/
+theorem not_allowed_answer_exact (mm : MethodMap) (pre : Resp) (m : Method)
+    (h1 : mm.impl.contains m = false) (h2 : (m == "OPTIONS") = false) (h3 : mm.combined.contains m = true) :
+    answer pre (mm.lookup m) = { status := 405, allow := some (", ".intercalate mm.allow405) } := by
+  unfold MethodMap.lookup
+  rw [if_neg (by rw [h1]; decide), if_neg (by rw [h2]; decide), if_pos h3]
+  rfl
+
+/-- a process_request middleware preset `501` and a bogus `Allow`: OPTIONS on a GET/PUT resource is still `200`, `Allow: GET, PUT` -/
+example : answer { status := 501, allow := some "BOGUS" } (({ rid := 0, impl := ["PUT", "GET"], combined := ["GET", "PUT", "OPTIONS"] } : MethodMap).lookup "OPTIONS")
+    = { status := 200, allow := some "GET, PUT" } := by decide
+
 end Dp
